@@ -104,7 +104,7 @@ SIM = {
     "C04": _mk(["G3", "G9", "G2", "G4"], range(401, 406)),
     "C06": _mk(["G8", "G1"], [601]),
     "C11": _mk(["G5", "G7"], range(1101, 1107)),
-    "C12": _mk(["G6"], range(1201, 1206)),
+    "C12": _mk(["G6", "G9"], range(1201, 1206)),
     "C05": _mk(["G1", "G2", "G3", "G4", "G6", "G7", "G9"], range(501, 507)),
     "C07": _mk(["G1", "G7"], range(701, 706), NOFAULT | {ENV_TAKEOVER, ENV_CONN, ENV_UNHEALTHY}),
     "C08": _mk(["G1", "G2", "G3", "G5", "G6", "G7", "G9"], range(801, 807)),
